@@ -397,20 +397,25 @@ def analyze(ctx, want):
             ok = ("ComparableAst as std::cmp::PartialEq>::eq" in s_ or (r[0] == "binop" and r[1] == "Eq")) and ".ast" in s_ and "arg1" in s_
             ob("C02.f", "registry-dedup-uses-the-class-equality", ok, "predicate %s" % s_[:120], c.loc())
 
+    # wherever the predicate table is created (in a constructor or in a helper the constructors share): nothing that can
+    # register a class is reachable afterwards in that function
+    REG_RX = r"try_from_scanner_mode|add_character_class|try_from_patterns|try_from_lookahead|try_from_ast"
+    creators = [f for f in F.fns.values() if not is_derived(f) and list(f.calls(r"CharacterClassRegistry::create_match_char_class$")) and not re.search(r"ScannerImpl::create_match_char_class$", f.name)]
+    served_c = {}
+    for f in creators:
+        cmf = list(f.calls(r"CharacterClassRegistry::create_match_char_class$"))
+        after_ = f.reach_from([f.term(cmf[0][0])["target"]])
+        regf = [M.call_name(t) for bb, t in f.calls(blocks=after_) if re.search(REG_RX, M.call_name(t))]
+        for o_, _ in _owners(F, f):
+            served_c[o_.name] = (len(cmf) == 1 and not regf, len(cmf), regf, f)
     for pat in (r"ScannerImpl as std::convert::TryFrom<std::vec::Vec<scanner_mode::ScannerMode>>>::try_from$", r"ScannerImpl as std::convert::TryFrom<&\[scanner_mode::ScannerMode\]>>::try_from$"):
         fn = F.fn(pat)
         ctx.analysed_fn(fn)
-        cm = list(fn.calls(r"CharacterClassRegistry::create_match_char_class$"))
-        ok = len(cm) == 1
-        after = set()
-        if ok:
-            bbc = cm[0][0]
-            after = fn.reach_from([fn.term(bbc)["target"]])
-            reg = [M.call_name(t) for bb, t in fn.calls(blocks=after) if re.search(r"try_from_scanner_mode|add_character_class|try_from_patterns|try_from_lookahead|try_from_ast", M.call_name(t))]
-            ok = not reg
+        ok, ncm, reg, where = served_c.get(fn.name, (False, 0, [], fn))
+        cm = [1] * ncm
         for rule in ("C02.f", "C14.c", "C08.e"):
             ob(rule, "predicates-created-after-last-registration:" + ("Vec" if "Vec" in pat else "slice"), ok,
-               "create_match_char_class call sites: %d; registering calls reachable after it: %s" % (len(cm), reg if cm else "n/a"), fn.loc(cm[0][0]) if cm else fn.loc())
+               "create_match_char_class call sites: %d (in %s); registering calls reachable after it: %s" % (ncm, M.short_name(where.name), reg if ncm else "n/a"), where.loc())
         # the same registry value is compiled into and used for the predicates and stored
         ex, paths = run_fn(fn, F, BaseModel(), max_paths=3000)
         for p in ret_paths(paths):
@@ -600,17 +605,24 @@ def analyze(ctx, want):
         ins = p.calls(r"HashMap::<.*>::insert$")
         other = [e for e in p.events if e[0] == "call" and re.search(r"HashMap::<.*>::(remove|clear|get_mut|entry|retain|drain|iter_mut|values_mut|extend)", e[2])]
         ob("C13.d", "entries-never-mutated", not other, "map operations besides get/insert: %s" % [M.short_name(e[2]) for e in other], sg.loc())
-        if len(g) != 1:
-            ob("C13.c", "one-lookup", False, "%d lookups" % len(g), sg.loc())
+        # the lookups of the path (get / contains_key); the first one decides hit or miss
+        look = [e for e in p.events if e[0] == "call" and re.search(r"HashMap::<.*>::(get|contains_key)::", e[2])]
+        if not look or len(look) > 2:
+            ob("C13.c", "one-lookup", False, "%d lookups" % len(look), sg.loc())
             continue
-        hit = variant_of(ex, p, g[0][4])
-        key_ok = ex.deref_val(p, g[0][3][1]) == ("sym", "modes") and "self.cache" in S.vstr(g[0][3][0])
-        ob("C13.c", "lookup-keyed-by-the-requested-modes", key_ok, "cache.get(%s)" % S.vstr(g[0][3][1]), sg.loc(g[0][1]))
+        key_ok = all(ex.deref_val(p, e[3][1]) == ("sym", "modes") and "self.cache" in S.vstr(e[3][0]) for e in look)
+        ob("C13.c", "lookup-keyed-by-the-requested-modes", key_ok, "cache lookups keyed by %s" % [S.vstr(e[3][1]) for e in look], sg.loc(look[0][1]))
+        first = look[0]
+        if re.search(r"::get::", first[2]):
+            hit = variant_of(ex, p, first[4])
+        else:
+            ck = [o for c, o in p.conds if c == first[4]]
+            hit = None if not ck else ("Some" if ck[-1] is True else "None")
         r = p.end[1]
+        ents = [("field", ("downcast", e[4], "Some"), "0") for e in g]
         if hit == "Some":
             seen.add("hit")
-            ent = ("field", ("downcast", g[0][4], "Some"), "0")
-            ok = r[0] == "adt" and r[2] == "Ok" and S.mentions(r, lambda x: x == ent) and not ins
+            ok = r[0] == "adt" and r[2] == "Ok" and any(S.mentions(r, lambda x, ent=ent: x == ent) for ent in ents) and not ins
             cl = p.calls(r"ScannerImpl as std::clone::Clone>::clone$")
             ob("C13.c", "hit-returns-a-clone-of-the-entry", ok and len(cl) == 1, "hit returns %s (clone calls: %d, inserts: %d)" % (S.vstr(r)[:100], len(cl), len(ins)), sg.loc())
             ob("C12.f", "cache-hands-out-a-clone-not-the-handle", ok and len(cl) == 1, "hit returns %s" % S.vstr(r)[:100], sg.loc())
@@ -650,7 +662,7 @@ def analyze(ctx, want):
             t = fn.term(bb)
             if t["k"] == "call":
                 n = M.call_name(t)
-                if re.search(r"clone::Clone>::clone$|IntoIterator>::into_iter$|Iterator>::next$|Deref>::deref$|<impl \[.*\]>::(len|iter)$|Vec::<.*>::len$", n):
+                if re.search(r"clone::Clone>::clone$|IntoIterator>::into_iter$|Iterator>::next$|Iterator>::(cloned|copied)(::<.*>)?$|Deref>::deref$|<impl \[.*\]>::(len|iter)$|Vec::<.*>::len$", n):
                     continue
                 n = re.sub(r"std::vec::IntoIter<[^>]*>|std::slice::Iter<[^>]*>", "ITER", n)
                 seq.append(M.short_name(n))
